@@ -817,6 +817,52 @@ func agentsCmd(out *cq.Out, seed uint64, tier string) {
 					tm2.Stop()
 				}
 			}
+			// ---- the task manager runs up to ten tasks of one tick at the same time on ONE agent (one client, one store
+			// client): honest batches verified concurrently raise no alert and fail nowhere
+			{
+				rig.setTamper(nil)
+				rig.rec.take()
+				var cwg sync.WaitGroup
+				var cmu sync.Mutex
+				cpanics := 0
+				cfirst := ""
+				for g := 0; g < 10; g++ {
+					cwg.Add(1)
+					go func(g int) {
+						defer cwg.Done()
+						for i := 0; i < 30; i++ {
+							a, b := (g*7+i)%total, (g*7+i+1+i%3)%total
+							if a > b {
+								a, b = b, a
+							}
+							hb := &protocol.BatchSnapshots{Snapshots: []*protocol.SignedSnapshot{cloneSigned(signed[a]), cloneSigned(signed[b])}}
+							f := aud
+							if i%2 == 1 {
+								f = mon
+							}
+							if _, p, msg := runTask(f, rig.agent, hb); p {
+								cmu.Lock()
+								cpanics++
+								if cfirst == "" {
+									cfirst = msg
+								}
+								cmu.Unlock()
+							}
+						}
+					}(g)
+				}
+				cwg.Wait()
+				calerts := rig.rec.take()
+				totalAlerts += len(calerts)
+				if cpanics > 0 || len(calerts) > 0 {
+					first := cfirst
+					if first == "" && len(calerts) > 0 {
+						first = calerts[0]
+					}
+					out.Violate("C19:false-alert-under-concurrent-tasks", fmt.Sprintf("300 auditor and monitor tasks on honest batches of an honest log, ten at a time on one agent: %d alerts were raised and %d tasks failed internally (first: %.200s)", len(calerts), cpanics, first), map[string]interface{}{"seed": seed, "log": lg})
+				}
+				out.Case("concurrent-honest-tasks", true)
+			}
 			// ---- a burst of alerts (many consecutive batches fail, as when the server is compromised) against an alert
 			// endpoint with some latency and the default queue of 10: every alert must arrive
 			var bmu sync.Mutex
